@@ -122,3 +122,35 @@ prop("C19", ["INC-1", "LAY-0", "LAY-1", "TERM-1"],
      "process_mnemonics iterates its input in order, keeps every ordinary statement, splices the recursive parse+expansion of the included file at the INCLUDE's position, opens the operand as "
      "written through the assembly reader, expansion precedes symbol collection; missing files and inclusion cycles raise a TranslationError.",
      "image equality with the spliced program for concrete programs.")
+
+
+# clauses added with the rules that came after the first build (constructor / rendering folds, configuration evaluation of the glue code)
+_MORE = {
+    "C01": " The NumericValue constructor is folded for every literal kind x width hint x addressing prefix (value and sign, a prefix is never overridden by the spelling, "
+           "a width the instruction asked for is kept, out-of-range literals and symbol-like words are rejected); hex/hex_len/high_byte/low_byte/get_negative are folded on boundary values; "
+           "the prefix handling of Value.create_from_str is folded for < > # and no prefix; PSH/PUL lists with overlapping and repeated registers.",
+    "C12": " The NumericValue constructor and its rendering methods are folded on their boundary cases (see C01); short-branch range (REL-1).",
+    "C05": " Literal parsing and rendering folded (WID-8, WID-9); list elements are numeric literals, not unresolved symbols; the string attempt sees the operand before a prefix is stripped; "
+           "every field of a line the pattern accepts is text.",
+    "C04": " Out-of-range literals are rejected under every width hint and prefix (WID-8); a divisor is never patched to avoid division by zero.",
+    "C18": " Symbol-like words are never read as numbers (WID-8); the fix-up pass hands each statement its own position (not a position looked up by value); the accumulator test of "
+           "resolve_symbols does not consult the symbol table.",
+    "C13": " Every field of a line accepted by the line pattern is text (no None reaching the operand constructors).",
+    "C19": " The handler around the read catches OSError; the inclusion trail is a collection of names; read_assembly_contents reads the whole file.",
+    "C07": " DiskFile.add_file evaluated for each file kind: header/trailer carry the file's length and addresses, granules found are recorded, directory entry, data and FAT are written "
+           "from this file's values; the name/extension bytes come from the file's own fields.",
+    "C08": " DiskFile.add_file evaluated for each file kind (DSK-8); the directory slot written is the one the free-slot search returned; a new image is 161280 bytes of FF; granules 0..67 "
+           "are all accepted.",
+    "C09": " save_virtual_file evaluated per container kind (fresh container, add_files(whole list), its buffer to the source file, write); add_coco_file records the file; open loads the "
+           "stored files; file_util conversions evaluated per switch x --files x --append; the directory scan and the cassette listing visit every file; SourceFile host I/O.",
+    "C10": " The save pipeline, both command-line front ends and SourceFile's host I/O are evaluated per configuration (VF-5, CLI-4, CLI-5, VF-9): opened unconditionally before adding, saved once "
+           "with the --append flag; the kind-mismatch refusal is decided by its truth table over (requested kind, kind found).",
+    "C11": " assembler.main evaluated for every output switch x NAM x --name x --append (CLI-5): the source named is read and assembled, the file carries name/origin/image/type, the container of "
+           "the switch's kind is opened, given that file and saved; save pipeline (VF-5), host write (VF-9) and DiskFile.add_file (DSK-8) evaluated per kind.",
+    "C14": " The bytes of the 16-bit header fields come from high_byte()/low_byte(), folded on boundary values (WID-9).",
+    "C15": " DiskFile.add_file evaluated per file kind (DSK-8): allocation stops at exactly the number needed, the search covers the whole fill order; file_util saves once after all adds.",
+    "C16": " file_util.main evaluated for every switch x --files selection x --append (CLI-4): exactly the selected files of the source listing, once each, in listing order; save pipeline, "
+           "DiskFile.add_file and SourceFile host I/O evaluated per kind.",
+}
+for _pid, _t in _MORE.items():
+    PROPS[_pid]["explanation"] += _t
